@@ -421,6 +421,36 @@ def run(fx, rep):
                         if F.term_contains(x, lambda y: y[0] == 'const' and y[1] in ('r', 'R', 'br', 'bR', 'Br', 'BR')) or (x[0] == 'agg' and any(e == ('const', 'r') for e in x[2])):
                             tests_raw = True
         rep.check(tests_raw, 'R3', 'bytes/raw-prefix-recognised', vb.loc(), 'the raw prefix r|R is recognised', 'the lexer admits raw bytes literals (b r\'..\') but visit_Bytes never looks for the r|R prefix: raw bytes are escape-processed and keep a quote')
+    # ---------------- R4 delimiter shapes of string literals
+    rep.rule('R4', 'string literals: the triple-quoted shapes the lexer admits are recognised before decoding (their body may contain the quote character unescaped)')
+    ps = fx.body(PARSE + 'parse_string')
+    vs = [x for x in fx.bodies.values() if x.crate == 'cel_parser' and x.path.endswith('::visit_String') and 'parser.rs' in x.loc()]
+    if len(vs) != 1:
+        raise F.Lost('visit_String not found')
+    sbodies = [vs[0]] + [fx.bodies[c] for c in fx.children.get(vs[0].path, [])] + list(fx.bodies_with_closures(ps.path))
+    tested = set()
+    for bb in sbodies:
+        rep.analysed(bb)
+        bpv = F.Prov(bb)
+        for bi, t in bb.calls():
+            n = F.norm_callee(t) or ''
+            if n in ('core::str::<impl str>::strip_prefix', 'core::str::<impl str>::starts_with', 'core::str::<impl str>::strip_suffix', 'core::str::<impl str>::ends_with',
+                     'std::cmp::PartialEq::eq', 'core::str::<impl str>::get', 'core::str::<impl str>::find'):
+                for a in t['args'][1:]:
+                    for x in bpv.of_operand(a):
+                        def consts(y):
+                            if y[0] == 'const' and isinstance(y[1], str):
+                                tested.add(y[1])
+                            return False
+                        F.term_contains(x, consts)
+    for raw, ql in sorted(shapes):
+        if ql != 3:
+            continue
+        for q in ("'", '"'):
+            d = q * 3
+            rep.check(d in tested, 'R4', 'string/%striple-%s-recognised' % ('raw-' if raw else '', 'single' if q == "'" else 'double'), ps.loc(), 'the delimiter %s is tested for' % d,
+                      'the lexer admits %s%s...%s with unescaped %s inside, but neither parse_string nor visit_String ever tests for the delimiter %s (constants tested: %s): %s%sa%sb%s is rejected or loses its quotes' %
+                      ('r' if raw else '', d, d, q, d, sorted(tested), 'r' if raw else '', d, q, d))
     # greedy trimming of the literal text
     lit = [b for b in fx.bodies.values() if b.raw['kind'] != 'Promoted' and not b.is_derived() and
            ((b.crate == 'cel_parser' and b.path.startswith(PARSE)) or
